@@ -152,6 +152,9 @@ func StartFull(w *World, conf FullConf, basePort int, setup func(b *lime.ServerB
 
 // WaitListening waits until every listener accepts connections.
 func (f *Full) WaitListening() bool {
+	// simulated time only advances once every task is blocked, so after any sleep the server's
+	// start-up (which never blocks) has run to completion, in-process listeners included
+	time.Sleep(time.Millisecond)
 	return f.w.Eventually(30*time.Second, func() bool {
 		if f.ServeRet.IsSet() {
 			return true
